@@ -228,6 +228,22 @@ CHECKS["C09"] = dict(
         "part bounded, never counted in obligations/discharged.",
    ref="§6 C09")
 
+CHECKS["C10"] = dict(
+   technique="contract-based deductive verification of the flux contracts (HLL form + Einfeldt bounds of the real "
+             "hlle/hll/rusanov code, via ghost cuts) and of the positivity lemma chain (z3, sympy identities); the claim at "
+             "the code's own CFL, SSP stages, HLLC and walls: labelled bounded stand-in",
+   text="PROVED for all admissible states: the real numflux_hlle (Euler), numflux_hll and numflux_rusanov (shallow water) "
+        "return the HLL flux for wave-speed estimates satisfying the Einfeldt bounds (sL<=min(0,uL-cL), sR>=max(0,uR+cR), "
+        "sR-sL>0; Rusanov: sR=-sL>=|u|+c on both sides); the admissible set is a convex cone; sU-F(U) and F(U)-sU are "
+        "admissible beyond the acoustic speeds; the HLL flux equals F_L+sL(U*-U_L)=F_R+sR(U*-U_R) with an admissible star "
+        "state; one explicit Euler step is a convex combination of U_i and two star states when "
+        "lambda*(sR_leftface - sL_rightface)<=1. NOT PROVED and covered only by a bounded stand-in on the real solver "
+        "(seeded random / piecewise-constant data, ratios up to 1e3, |M|<=3, 6 steps): positivity at the code's CFL in "
+        "(0,1/2] (the face-speed condition does not follow from the cell CFL), rk2_heun/rk3ssp, HLLC, wall boundaries.",
+   note=TB + "; the statement of C10 as a whole is therefore NOT proved: proof covers the contract/lemma chain under the "
+        "face-speed CFL; everything else is bounded (listed under bounded_standins, never counted in obligations).",
+   ref="§6 C10")
+
 NA = {
  "C04": "convergence of a solve at the design order under mesh refinement is a limit statement over a family of meshes "
         "(and an empirical one for Riemann problems; the reference solutions wrap the external aerokit): no pre/postcondition "
